@@ -19,6 +19,7 @@ import (
 	"github.com/tdewolff/minify/v2/xml"
 	"verif/internal/core"
 	"verif/internal/files"
+	"verif/internal/props/c01"
 )
 
 type cfg struct {
@@ -214,6 +215,33 @@ func Run(c *core.Check) {
 			}
 		})
 	}
+	// syntactically valid programs: the complete program grammar of C01 at this tier (products of two or three constructs per
+	// rewrite rule). Every rewrite of the JS minifier is reached with operands of every shape (calls without arguments, empty
+	// lists, missing branches); only totality is decided here, behaviour is C01's business
+	gfam := "generated-js-programs"
+	c.Family(gfam).Bound = "every program of the C01 families at this tier x default and all-options-non-default registry, as a script and (every 16th) inside an HTML onclick attribute"
+	gm := map[string]*minify.M{"default": regs["default"](), regNames[1]: regs[regNames[1]]()}
+	c.ParallelStream(gfam, func(emit func(string) bool) { c01.Programs(c, emit) }, func(idx uint64, s string) {
+		text := s[strings.IndexByte(s, 0)+1:]
+		for rn, m := range gm {
+			var kind, what string
+			track(fmt.Sprintf("application/javascript %s %q", rn, text), func() { kind, what = CheckBytes(m, "application/javascript", []byte(text)) })
+			c.Count(1)
+			c.AddFamily(gfam, 1, 1)
+			if kind != "" {
+				c.Fail(core.Failure{Family: gfam, Input: text, Config: "application/javascript " + rn, Kind: kind, What: what, Order: idx})
+			}
+		}
+		if idx%16 == 3 && !strings.ContainsAny(text, "\"&<") {
+			in := "<p onclick=\"" + text + "\">x</p>"
+			kind, what := CheckBytes(gm["default"], "text/html", []byte(in))
+			c.Count(1)
+			c.AddFamily(gfam, 1, 1)
+			if kind != "" {
+				c.Fail(core.Failure{Family: gfam, Input: in, Config: "text/html default", Kind: kind, What: what, Order: idx})
+			}
+		}
+	})
 	runHelpers(c)
 	runFiles(c, track)
 	runLadders(c, track)
